@@ -8,6 +8,7 @@ import XonshVerif.Model.WithMacro
 import XonshVerif.Model.Span
 import XonshVerif.Model.Concat
 import XonshVerif.Model.ProcMacro
+import XonshVerif.Model.Desugar
 import XonshVerif.Model.Helpers
 import XonshVerif.Model.Pipeline
 import XonshVerif.Model.Lines
@@ -86,6 +87,48 @@ def handleProcMacro (fs : List String) : String :=
   | sc :: pieces =>
     let E : Rx.Env := { wordChars := [], spaceChars := decStr sc }
     encStr (ProcMacro.procMacroArg E.isSpace (pieces.map decStr))
+  | _ => "bad-request"
+
+def readSp (f : String) : Desugar.Sp :=
+  match f.splitOn "-" with
+  | [a, b] => ⟨readPos a, readPos b⟩
+  | _ => ⟨⟨0, 0⟩, ⟨0, 0⟩⟩
+
+def encSp (sp : Desugar.Sp) : String := s!"{encPos sp.a}-{encPos sp.b}"
+
+def readCtx (f : String) : Desugar.Ctx := if f = "Store" then .store else if f = "Del" then .del else .load
+def encCtx : Desugar.Ctx → String | .load => "Load" | .store => "Store" | .del => "Del"
+
+partial def dumpX : Desugar.X → String
+  | .name id sp => s!"N({id};{encSp sp})"
+  | .attr v a sp => s!"A({dumpX v};{a};{encSp sp})"
+  | .const v sp => s!"C({encStr v};{encSp sp})"
+  | .call f args sp => s!"K({dumpX f};[{"|".intercalate (args.map dumpX)}];{encSp sp})"
+  | .subscript v sl c sp => s!"S({dumpX v};{dumpX sl};{encCtx c};{encSp sp})"
+  | .starred v sp => s!"T({dumpX v};{encSp sp})"
+  | .tuple es sp => s!"U([{"|".intercalate (es.map dumpX)}];{encSp sp})"
+  | .hole i => s!"H({i})"
+
+/-- `desugar <builder> ...` : the tree a xonsh builder makes (argument nodes are holes) -/
+def handleDesugar (fs : List String) : String :=
+  let holes (n : Nat) : List Desugar.X := (List.range n).map .hole
+  match fs with
+  | ["envname", v, c, sp] => dumpX (Desugar.expandEnvName (decStr v) (readCtx c) (readSp sp))
+  | ["envexpr", c, sp] => dumpX (Desugar.expandEnvExpr (.hole 0) (readCtx c) (readSp sp))
+  | ["proc", m, n, sp] => dumpX (Desugar.handleProc m (holes (nat n)) (readSp sp))
+  | ["inject", n, sp] => dumpX (Desugar.procInject (holes (nat n)) (readSp sp))
+  | ["pyexpr", sp] => dumpX (Desugar.procPyexpr (.hole 0) (readSp sp))
+  | ["search", v, sp] => dumpX (Desugar.expandSearchPath (decStr v) (readSp sp))
+  | "macrocall" :: sp :: ps =>
+    dumpX (Desugar.macroCall (.hole 0) (ps.map (fun f => match f.splitOn "@" with | [v, s] => (decStr v, readSp s) | _ => ([], readSp ""))) (readSp sp))
+  | ["entermacro", sp, v, bsp] => dumpX (Desugar.enterMacro (.hole 0) (decStr v) (readSp bsp) (readSp sp))
+  | "help" :: atoms =>
+    let as := atoms.zipIdx.map (fun (f, i) => match f.splitOn ";" with
+      | [sp, id, sup, me] => ({ node := .hole i, sp := readSp sp, nameId := if id = "-" then none else some id, super := sup = "1", markEnd := readPos me } : Desugar.HelpAtom)
+      | _ => default)
+    match Desugar.expandHelp as with
+    | some x => dumpX x
+    | none => "error"
   | _ => "bad-request"
 
 /-- `macro <spacechars> tok*` -/
